@@ -164,6 +164,9 @@ def run_case(case, ctx):
     ctx.count(f"regime_{regime}")
     if regime == "a" and exact:
         assert removable, "reference model: refined curve must be exactly removable"
+    if regime == "a" and not exact and not judged:
+        ctx.count("unjudged_float")
+        return
     if regime == "a" and judged and not exact:
         # float image of an exact refinement: removable up to rounding; must succeed and reproduce the coarse curve
         cU, cP, cW, _ = cv.dec_curve(case["coarse"])
